@@ -214,6 +214,11 @@ def div(a, b):
     a, b = to_real(a), to_real(b)
     if b.op == 'c' and b.args[0] != 0:
         return mul(_c(1 / b.args[0], 'R'), a)
+    # pull constant factors out of quotients: (c*x)/y -> c*(x/y), x/(c*y) -> (1/c)*(x/y)
+    if a.op == '*' and a.args[0].op == 'c':
+        return mul(a.args[0], div(a.args[1], b))
+    if b.op == '*' and b.args[0].op == 'c' and b.args[0].args[0] != 0:
+        return mul(_c(1 / b.args[0].args[0], 'R'), div(a, b.args[1]))
     if _is0(a) and not _is0(b):
         # 0/x: keep definedness obligation by keeping the node unless x is a constant
         pass
@@ -244,11 +249,19 @@ def exp(a):
 
 
 def log(a):
+    """log with products/quotients/powers expanded into sums of log(atom) (each atom's positivity
+    becomes a definedness side obligation when encoded)"""
     a = to_real(a)
     if _is1(a):
         return const(0)
     if a.op == 'exp':
         return a.args[0]
+    if a.op == '*':
+        return add(log(a.args[0]), log(a.args[1]))
+    if a.op == '/':
+        return sub(log(a.args[0]), log(a.args[1]))
+    if a.op == 'c' and a.args[0] <= 0:
+        raise ValueError('log of non-positive constant %s' % a.args[0])
     return _mk('log', 'R', a)
 
 
